@@ -746,6 +746,104 @@ def specialise_bound_tail(func):
     visit(func.body)
 
 
+class _BetaReduce(ast.NodeTransformer):
+    """``(lambda a, b: E)(x, y)`` with plain positional parameters and name / constant arguments
+    is E with the arguments substituted"""
+    def visit_Call(self, node):
+        self.generic_visit(node)
+        f = node.func
+        if isinstance(f, ast.Lambda) and not node.keywords and not f.args.vararg and not f.args.kwarg and not f.args.kwonlyargs \
+                and not f.args.defaults and len(f.args.posonlyargs + f.args.args) == len(node.args) \
+                and all(isinstance(a, (ast.Name, ast.Constant)) for a in node.args) \
+                and not any(isinstance(n, (ast.Lambda, ast.ListComp, ast.SetComp, ast.DictComp, ast.GeneratorExp, ast.NamedExpr))
+                            for n in ast.walk(f.body)):
+            env = {p_.arg: a for p_, a in zip(f.args.posonlyargs + f.args.args, node.args)}
+
+            class Put(ast.NodeTransformer):
+                def visit_Name(self, n):
+                    if n.id in env and isinstance(n.ctx, ast.Load):
+                        return ast.copy_location(copy.deepcopy(env[n.id]), n)
+                    return n
+            return ast.copy_location(Put().visit(copy.deepcopy(f.body)), node)
+        return node
+
+
+def expand_constant_dispatch(tree):
+    """a module-level dict display with constant keys that is never written afterwards is a
+    dispatch table; ``f = TABLE.get(k)`` followed by ``if f is not None: B`` (no else) is the
+    chain ``if k == key1: B[f := value1] elif k == key2: ...`` -- an unknown key does nothing
+    in both.  Values must be names, dotted names or lambdas; lambdas applied to names are
+    beta-reduced."""
+    if not isinstance(tree, ast.Module):
+        return tree
+    tables = {}
+    for st in tree.body:
+        if isinstance(st, ast.Assign) and len(st.targets) == 1 and isinstance(st.targets[0], ast.Name) and isinstance(st.value, ast.Dict) \
+                and st.value.keys and all(isinstance(k, ast.Constant) and isinstance(k.value, (str, int)) for k in st.value.keys) \
+                and all(isinstance(v, (ast.Name, ast.Attribute, ast.Lambda)) for v in st.value.values) and len(st.value.keys) <= 40:
+            tables[st.targets[0].id] = st.value
+    if not tables:
+        return tree
+    # never rebound, never written, only ever used as ``TABLE.get(..)``
+    uses = {}
+    for n in ast.walk(tree):
+        if isinstance(n, ast.Name) and n.id in tables:
+            uses[n.id] = uses.get(n.id, 0) + 1
+    gets = {}
+    for n in ast.walk(tree):
+        if isinstance(n, ast.Call) and isinstance(n.func, ast.Attribute) and n.func.attr == 'get' and isinstance(n.func.value, ast.Name) \
+                and n.func.value.id in tables and len(n.args) == 1 and not n.keywords:
+            gets[n.func.value.id] = gets.get(n.func.value.id, 0) + 1
+    ok_tables = {t for t in tables if uses.get(t, 0) == gets.get(t, 0) + 1 and gets.get(t, 0) >= 1}
+    if not ok_tables:
+        return tree
+
+    def blocks_of(st):
+        for f in ('body', 'orelse', 'finalbody'):
+            v = getattr(st, f, None)
+            if isinstance(v, list) and v and isinstance(v[0], ast.stmt):
+                yield v
+        for h in getattr(st, 'handlers', ()):
+            yield h.body
+
+    def visit(block, func):
+        i = 0
+        while i < len(block):
+            st = block[i]
+            nxt = block[i + 1] if i + 1 < len(block) else None
+            if isinstance(st, ast.Assign) and len(st.targets) == 1 and isinstance(st.targets[0], ast.Name) \
+                    and isinstance(st.value, ast.Call) and isinstance(st.value.func, ast.Attribute) and st.value.func.attr == 'get' \
+                    and isinstance(st.value.func.value, ast.Name) and st.value.func.value.id in ok_tables \
+                    and isinstance(st.value.args[0], ast.Name) and isinstance(nxt, ast.If) and not nxt.orelse \
+                    and isinstance(nxt.test, ast.Compare) and len(nxt.test.ops) == 1 and isinstance(nxt.test.ops[0], ast.IsNot) \
+                    and isinstance(nxt.test.left, ast.Name) and nxt.test.left.id == st.targets[0].id \
+                    and isinstance(nxt.test.comparators[0], ast.Constant) and nxt.test.comparators[0].value is None:
+                f, key, table = st.targets[0].id, st.value.args[0], tables[st.value.func.value.id]
+                total = sum(1 for n in ast.walk(func) if isinstance(n, ast.Name) and n.id == f) if func is not None else 0
+                inside = sum(1 for s2 in nxt.body for n in ast.walk(s2) if isinstance(n, ast.Name) and n.id == f)
+                stores = any(isinstance(n, ast.Name) and n.id in (f, key.id) and not isinstance(n.ctx, ast.Load) for s2 in nxt.body for n in ast.walk(s2))
+                if func is not None and total == inside + 2 and not stores:
+                    chain = None
+                    for k, v in reversed(list(zip(table.keys, table.values))):
+                        class Put(ast.NodeTransformer):
+                            def visit_Name(self, n):
+                                if n.id == f and isinstance(n.ctx, ast.Load):
+                                    return ast.copy_location(copy.deepcopy(v), n)
+                                return n
+                        body = [_BetaReduce().visit(Put().visit(copy.deepcopy(s2))) for s2 in nxt.body]
+                        test = ast.Compare(left=copy.deepcopy(key), ops=[ast.Eq()], comparators=[copy.deepcopy(k)])
+                        chain = ast.If(test=test, body=body, orelse=[chain] if chain is not None else [])
+                        ast.copy_location(chain, nxt)
+                    ast.fix_missing_locations(chain)
+                    block[i:i + 2] = [chain]
+                    continue
+            for b in blocks_of(st):
+                visit(b, st if isinstance(st, (ast.FunctionDef, ast.AsyncFunctionDef)) else func)
+            i += 1
+    visit(tree.body, None)
+    return tree
+
+
 def inline_adjacent_temps(func, log=None):
     """``t = e`` immediately followed by a statement that holds the only other occurrence of
     the local t (a load, evaluated once: not under a lambda, comprehension or loop header):
@@ -1371,6 +1469,7 @@ def apply_all(tree):
     tree = _DictCopy().visit(tree)
     tree = _OrDefault().visit(tree)
     tree = _PositiveElse().visit(tree)
+    tree = expand_constant_dispatch(tree)
     if isinstance(tree, ast.Module) and _operator_is_the_module(tree):
         tree = _OperatorCalls().visit(tree)
     for node in ast.walk(tree):
